@@ -278,6 +278,25 @@ def rule_semantic(src, rep, counts):
                        % (idx, got, want), witness={"index": str(idx)})
     if not bad_r:
         rep.ob("A-region-read-returns-what-cells-show", g.where(), g.scope, "%d region / cell reads" % m, True)
+    # what a read returns is the reader's: editing it, or assigning to the array afterwards, does not reach the other
+    for idx, label in ((slice(None, None), "a[:]"), (slice(0, 4), "a[0:4]"), ((slice(0, 4), slice(0, 6)), "a[0:4, 0:6]")):
+        arr2 = build(["abcdef", "ab", "", "abcd"], 6)
+        before = _strip(_shown(arr2))
+        r = it.call1("formatstringarray", "FSArray.__getitem__", arr2, idx)
+        ok, why = True, ""
+        if r[0] == "ok" and isinstance(r[1], list):
+            n_read = len(r[1])
+            r[1].reverse()
+            r[1].append(red("zz"))
+            if _strip(_shown(arr2)) != before:
+                ok, why = False, "after the caller reversed and extended the list %s returned, the array shows %s (it showed %s)" % (label, _txt(_strip(_shown(arr2))), _txt(before))
+            else:
+                r2 = it.call1("formatstringarray", "FSArray.__getitem__", arr2, idx)
+                it.call1("formatstringarray", "FSArray.__setitem__", arr2, (slice(5, 6), slice(0, 1)), ["q"])
+                if r2[0] == "ok" and isinstance(r2[1], list) and len(r2[1]) != n_read:
+                    ok, why = False, "a list read with %s before an assignment that grows the array has %d rows afterwards (it had %d)" % (label, len(r2[1]), n_read)
+        rep.ob("A-region-read-returns-what-cells-show", g.where(), g.scope, "%s handed to the caller" % label, ok, why)
+        rep.case(True)
     r = it.call1("formatstringarray", "FSArray.__getitem__", arr, 1)
     rep.ob("A-row-read", g.where(), g.scope, "a[1]", r[0] == "ok" and isinstance(r[1], Obj) and cells(runs_of(r[1])) == rows[1], "a[1] gives %s" % (r,))
     # fsarray()
@@ -297,6 +316,16 @@ def rule_semantic(src, rep, counts):
                                                     else "build %d-column rows showing the strings" % want[1],
                                                     r if r[0] != "ok" else (r[1].fields.get("num_columns"), _txt(_cells_of_rows(r[1])))))
         rep.case(True)
+
+    # formatting arguments apply to the plain strings; a line that already is a FmtStr shows as it was given
+    r = it.call1("formatstringarray", "fsarray", [red("ab"), "cd"], 4, bg="blue")
+    if r[0] == "opaque":
+        raise AnalysisError("fsarray outside the evaluated subset: %s" % r[1])
+    rows2 = _cells_of_rows(r[1]) if r[0] == "ok" else None
+    want2 = [[("a", (("fg", 31),)), ("b", (("fg", 31),))], [("c", (("bg", 44),)), ("d", (("bg", 44),))]]
+    rep.ob("A-fsarray-builds-rows-that-show-the-strings", h.where(), h.scope, "fsarray([red('ab'), 'cd'], 4, bg='blue')", rows2 == want2,
+           "the rows show %s; the first line was given as red 'ab' and has to show as given, the second is 'cd' on blue" % (rows2 if rows2 is not None else r,))
+    rep.case(True)
 
 
 def _group_key(rule):
